@@ -780,7 +780,10 @@ class PyvalColorizer:
 
     def _colorize_ast_generic(self, pyval: ast.AST, state: _ColorizerState) -> None:
         try:
-            source = astor.to_source(pyval).strip()
+            # Keep the source on one line: astor wraps long lines, and the colorizer
+            # does its own line wrapping (or none at all for inline values, where
+            # everything after the first line break would be dropped).
+            source = astor.to_source(pyval, pretty_source=''.join).strip()
         except Exception: #  No defined handler for node of type <type>
             state.result.append(self.UNKNOWN_REPR)
         else:
